@@ -26,6 +26,9 @@ def lua_sources(ctx, rnd):
         out.append(b's="' + vals + b'" -- ' + vals.replace(b'\n', b' ') + b'\n')
     out.append(b''.join(bytes([b]) + b'x=' + bytes([b]) + b'\n' for b in range(128, 256)))
     out.append(b'x="\\0\\1\\2" y="a\\tb" -- \x01\x02\x7f\n')
+    # lines shaped like a section header but not one: glyph bytes, spaces, upper case, inside long strings / comments
+    out.append(b's=[[\n__\xcb\xcc\xcd__\n__ lua __\n__\x80__\n]]\n--[[\n__\xe9\xea__\n]]\nx=1\n')
+    out.append(b'__\xcb\xcc__=1\n_gfx_=2 -- __gfx\n')
     for name, src in progs.program_sources(ctx, rnd, 200 if ctx.quick else 2000):
         out.append(src)
     for fn in sorted(os.listdir(os.path.join(core.VERIF, 'fixtures', 'lua'))):
